@@ -12,9 +12,9 @@ Definition v10 := mkV 0%N [1%N; 0%N] None None None [].
 Definition v20 := mkV 0%N [2%N; 0%N] None None None [].
 Definition ex_req_b := mkReq "B" [] [mkC OGe v20 false] None.
 Definition ex_ops : list gop :=
-  [ OpAdd "root.txt" (Some (mkDist "root.txt" None "None" [mkReq "b" [] [] None; mkReq "a" [] [] None] true)) None None;
-    OpAdd "b" (Some (mkDist "b" (Some v10) "1.0" [] false)) (Some "root_txt") (Some (mkReq "b" [] [] None));
-    OpAdd "a" (Some (mkDist "a" (Some v10) "1.0" [ex_req_b] false)) (Some "root_txt") (Some (mkReq "a" [] [] None)) ].
+  [ OpAdd "root.txt" (Some (mkDist "root.txt" None "None" [mkReq "b" [] [] None; mkReq "a" [] [] None] true false)) None None;
+    OpAdd "b" (Some (mkDist "b" (Some v10) "1.0" [] false false)) (Some "root_txt") (Some (mkReq "b" [] [] None));
+    OpAdd "a" (Some (mkDist "a" (Some v10) "1.0" [ex_req_b] false false)) (Some "root_txt") (Some (mkReq "a" [] [] None)) ].
 
 Definition ex_version_of (k : string) (g : graph) : option (option string) :=
   match slookup k (index g) with
